@@ -10,7 +10,7 @@ TB = ('Trusted: Coq 8.16.1 kernel/vm_compute; hand-written Gallina model tied to
 CHECKS = {
  'C20': dict(cat='proof', ref='DESIGN.md §7 C20',
    text='Kernel-checked theorems: the version lookup equals the deepest-containing-directory specification for every map of clean '
-        'distinct keys and every rooted file name (unbounded), is iteration-order independent, config beats manifest; the executable '
+        'distinct keys and every rooted file name (unbounded), is iteration-order independent and local (maps agreeing on the configured ancestors of the directory of the file choose the same version; an added non-ancestor key changes nothing), config beats manifest; the executable '
         'model is compared with RegoVersionFromVersionsMap/AllRegoVersions/InputFromPaths on exhaustive small key sets and on real '
         'temp trees addressed relatively and absolutely.',
    technique='Coq proof over a Gallina model + differential correspondence (vm_compute) with the Go implementation'),
